@@ -50,12 +50,13 @@ func (e *Engine) step() {
 	}
 	ci := &fr.fi.blocks[fr.blk][fr.ip]
 	e.exec(th, fr, ci)
-	if e.preIdx < len(e.pre) {
+	if e.preUsed < len(e.pre) {
 		panic(fmt.Sprintf("unconsumed pre-decisions after %v in %s", ci.ins, fr.fi.name))
 	}
 	if e.pre != nil {
-		e.pre, e.preIdx = nil, 0
+		e.pre = nil
 	}
+	e.preUsed, e.decSeq = 0, 0
 }
 
 func (e *Engine) jump(fr *Frame, to int) {
@@ -380,6 +381,8 @@ func (e *Engine) symLoad(p *SymPtr) Value {
 	// ite chain over the window
 	var res Value
 	first := true
+	w := e.scalar(p.n.etyp).w
+	isScalar := e.scalar(p.n.etyp).kind != 0 && e.scalar(p.n.etyp).kind != 4
 	for i := p.hi - 1; i >= p.lo; i-- {
 		el := p.n.flat[i]
 		if first {
@@ -388,7 +391,11 @@ func (e *Engine) symLoad(p *SymPtr) Value {
 			continue
 		}
 		c := e.tt.Eq(p.idx, e.tt.Const(uint64(i), 64))
-		res = e.iteValue(c, el, res)
+		if isScalar {
+			res = scalarOfTerm(e.tt.Ite(c, e.term(el, w), e.term(res, w)))
+		} else {
+			res = e.iteValue(c, el, res)
+		}
 	}
 	return res
 }
@@ -429,14 +436,7 @@ func (e *Engine) symStore(p *SymPtr, v Value) {
 	for i := p.lo; i < p.hi; i++ {
 		old := p.n.flat[i]
 		c := e.tt.Eq(p.idx, e.tt.Const(uint64(i), 64))
-		w := uint16(64)
-		if v.T != nil {
-			w = v.T.w
-		} else if old.T != nil {
-			w = old.T.w
-		} else {
-			w = e.scalar(p.n.typ).w
-		}
+		w := e.scalar(p.n.etyp).w
 		nv := Value{T: e.tt.Ite(c, e.term(v, w), e.term(old, w))}
 		if nv.T.op == OpConst {
 			nv = Value{N: nv.T.c}
@@ -489,9 +489,8 @@ func (e *Engine) splitInt2(what string, v Value, si scalarInfo, lo, hi int64, no
 		}
 		return x, x >= lo && x <= hi
 	}
-	if e.preIdx < len(e.pre) {
-		d := e.pre[e.preIdx]
-		e.preIdx++
+	d, okPre, k := e.nextPre()
+	if okPre {
 		if d.idx == 0 {
 			return 0, false
 		}
@@ -560,11 +559,15 @@ func (e *Engine) splitInt2(what string, v Value, si scalarInfo, lo, hi int64, no
 	}
 	e.sv.Pop()
 	if len(alts) == 2 && (noOut || e.sv.CheckWith(alts[0].cond) == Unsat) {
-		// exactly one feasible value and no out-of-range alternative
+		// exactly one feasible value and no out-of-range alternative: remember
+		// the resolution so that a re-execution of this step reuses it
 		e.noteEq(v.T, uint64(alts[1].payload)&mask(w))
+		e.pre = append(e.pre, decision{1, alts[1].payload, k})
+		e.preUsed++
 		return alts[1].payload, true
 	}
-	panic(&forkReq{alts: alts, prefix: append([]decision(nil), e.pre[:e.preIdx]...), what: what})
+	e.fork(what, alts, k)
+	return 0, false
 }
 
 func (e *Engine) noteEq(t *Term, c uint64) {
